@@ -632,6 +632,12 @@ class Gen:
                 sp.insert(st[hits[nth - 1]].start, ADD("E10", c.text.rstrip() + "\n"))
         assumed = d.opts.get("assume") is not None
         info["assumed"] = assumed
+        if assumed:
+            # E14: the body of an assumed leaf is not verified; it is dropped so that rustc need not type-check
+            # std adapters / helpers that the shim does not model. Closures/loops inside are ignored.
+            a, b = st[fp.body_open].end, st[fp.body_close].start
+            sp.ops = [o for o in sp.ops if not (a <= o[0] and o[1] <= b)]
+            sp.replace(a, b, REP("E14", src[a:b], " unimplemented!() "))
         if self.mode == "vacuity" and not assumed:
             sp.insert(st[fp.body_open].end, ADD("E10", " proof { assert(false); } "))
         # contract insertion
